@@ -67,10 +67,10 @@ SHAPES = ['%s|%s%s%s' % (op or 'none', 'q' if q else '-', 'a' if a else '-', 'r'
           for op in [None] + OPS for q in (0, 1) for a in (0, 1) for r in (0, 1)]
 
 # total counts per tier (split over the shards)
-N_MATRIX_REPS = {'quick': 12, 'thorough': 300}          # x 48 shapes x 5 positions
-N_RANDOM = {'quick': 40000, 'thorough': 2000000}
-N_HIST = {'quick': 6000, 'thorough': 200000}
-N_DEB822 = {'quick': 3000, 'thorough': 80000}
+N_MATRIX_REPS = {'quick': 25, 'thorough': 300}          # x 48 shapes x 5 positions
+N_RANDOM = {'quick': 90000, 'thorough': 2000000}
+N_HIST = {'quick': 12000, 'thorough': 200000}
+N_DEB822 = {'quick': 6000, 'thorough': 80000}
 
 FLOORS = {'quick': {'nontrivial': 20000,
                     'monitors': {'M': 30000, 'M.idem': 30000, 'M.hist': 5000, 'M.deb822': 3000},
@@ -258,7 +258,8 @@ def atom_in_domain(a):
             op, v = a['v']
             if op not in OPS or not isinstance(v, str) or dpkgver.classify(v) != 'accept' or not v.isascii():
                 return False
-            if not v.split(':', 1)[-1][:1].isdigit() and not v[:1].isdigit():
+            rest = v.split(':', 1)[1] if ':' in v else v
+            if rest[:1] not in DIGITS or not rest:
                 return False
         if a.get('a') is not None:
             if not a['a'] or len(set(bool(e) for e, _n in a['a'])) != 1:
